@@ -288,35 +288,47 @@ def check_accessors(rep, prog):
                 n += 1
                 what = 'is_on_forest(e) is index(e) >= cycle space dimension'
                 rets = ex.returns_of(fn)
-                ok = False
-                if len(rets) == 1 and rets[0].c:
-                    e = rets[0].c[0].strip_all()
-                    if e.k == 'BinaryOperator' and e.op in ('>=', '<', '>', '<='):
+                if len(rets) != 1 or not rets[0].c:
+                    rep.undecided('R16b', fn.body, fn, what, 'not a single return expression')
+                    continue
+
+                def dim(node):
+                    s = node.strip_all()
+                    if s.k == 'CXXMemberCallExpr' and s.callee and s.callee['name'] == 'cycle_space_dimension':
+                        return True
+                    return same_dimension(ex.lin(node, make_resolve(fn)))
+
+                def is_index(node):
+                    s = node.strip_all()
+                    return (s.k == 'CXXMemberCallExpr' and s.callee['name'] == 'at' and s.args() and ex.var_of(s.args()[0]) == fn.param_ids[0]) or \
+                           (s.k == 'CXXOperatorCallExpr' and s.op in ('[]', '()') and ex.var_of(s.c[-1]) == fn.param_ids[0])
+
+                def atomize(leaf):
+                    e = leaf.strip_all()
+                    if e.k == 'BinaryOperator' and e.op in ('>=', '<', '>', '<=', '==', '!='):
                         l, r = e.c
                         op = e.op
-                        Ll, Lr = ex.lin(l, make_resolve(fn)), ex.lin(r, make_resolve(fn))
-                        # cycle_space_dimension() call resolves through its body
-                        def dim(Lx, node):
-                            s = node.strip_all()
-                            if s.k == 'CXXMemberCallExpr' and s.callee and s.callee['name'] == 'cycle_space_dimension':
-                                return True
-                            return same_dimension(Lx)
-                        def is_index(node):
-                            s = node.strip_all()
-                            return (s.k == 'CXXMemberCallExpr' and s.callee['name'] == 'at' and ex.var_of(s.args()[0]) == fn.param_ids[0]) or \
-                                   (s.k == 'CXXOperatorCallExpr' and s.op in ('[]', '()') and ex.var_of(s.c[-1]) == fn.param_ids[0])
-                        if is_index(l) and dim(Lr, r) and op == '>=':
-                            ok = True
-                        if is_index(r) and dim(Ll, l) and op == '<=':
-                            ok = True
-                        if is_index(l) and dim(Lr, r) and op == '>':
-                            rep.violation('R16b', rets[0], fn, what, 'strict comparison: the forest edge with index exactly m-n+k is reported off-forest',
-                                          key='R16b|%s|strict' % fn.g)
-                            continue
-                if ok:
+                        if is_index(r) and dim(l):
+                            l, r = r, l
+                            op = {'<': '>', '<=': '>=', '>': '<', '>=': '<=', '==': '==', '!=': '!='}[op]
+                        if is_index(l) and dim(r):
+                            lt, eq, gt = ex.f_atom('lt'), ex.f_atom('eq'), ex.f_atom('gt')
+                            return {'<': lt, '<=': ex.f_or(lt, eq), '>': gt, '>=': ex.f_or(gt, eq), '==': eq, '!=': ex.f_or(lt, gt)}[op]
+                    return None
+                f = ex.formula(rets[0].c[0], atomize)
+                if f is None or [a for a in ex.f_atoms(f) if a not in ('lt', 'eq', 'gt')]:
+                    rep.undecided('R16b', rets[0], fn, what, '`%s` is not a comparison of index(e) with the dimension' % rets[0].text(50))
+                    continue
+                table = {o: ex.f_eval(f, {'lt': o == 'lt', 'eq': o == 'eq', 'gt': o == 'gt'}) for o in ('lt', 'eq', 'gt')}
+                if table == {'lt': False, 'eq': True, 'gt': True}:
                     rep.ok('R16b', rets[0], fn, what)
+                elif table == {'lt': False, 'eq': False, 'gt': True}:
+                    rep.violation('R16b', rets[0], fn, what, 'strict comparison: the forest edge with index exactly m-n+k is reported off-forest',
+                                  key='R16b|%s|strict' % fn.g)
                 else:
-                    rep.violation('R16b', fn.body, fn, what, '`%s` is not index(e) >= dimension' % (rets[0].text(50) if rets else '?'), key='R16b|%s|on-forest' % fn.g)
+                    rep.violation('R16b', fn.body, fn, what, '`%s` is not index(e) >= dimension (true for index %s the dimension)' % (
+                        rets[0].text(50), '/'.join({'lt': 'below', 'eq': 'equal to', 'gt': 'above'}[o] for o in ('lt', 'eq', 'gt') if table[o]) or 'never'),
+                                  key='R16b|%s|on-forest' % fn.g)
             elif name == 'operator()' and len(fn.param_ids) == 1:
                 n += 1
                 pt = prog.base_type(prog.vars[fn.param_ids[0]]['ty']) or {}
@@ -445,6 +457,7 @@ def check_forest_emission(rep, prog):
             n += 1
             evar = ex.var_of(val)
             sets = {}
+            erased_by_test = []
 
             def atomize(leaf):
                 m = ex.membership(leaf)
@@ -452,6 +465,8 @@ def check_forest_emission(rep, prog):
                     sv = ex.var_of(m[0])
                     if sv is not None and (prog.base_type(prog.vars[sv]['ty']) or {}).get('rec') in ('std::set', 'std::unordered_set'):
                         sets[sv] = m[1]
+                        if any(x.k == 'CXXMemberCallExpr' and x.callee and x.callee['name'] == 'erase' for x in leaf.walk()):
+                            erased_by_test.append(leaf)     # the test is erase(key) != 0: it removes the endpoint exactly when it answers true
                         f = ex.f_atom('unreached')
                         return f if m[2] else ex.f_not(f)
                 # iterator form: wit = unreached.find(w); wit == unreached.end()
@@ -488,10 +503,18 @@ def check_forest_emission(rep, prog):
                 continue
             # erase + push on the same path
             pd = cfg.pos_of(d)
-            erased = pushed = False
+            erased = bool(erased_by_test)
+            pushed = False
+            inner_loop = d.enclosing('ForStmt', 'WhileStmt', 'CXXForRangeStmt', 'DoStmt')
             for x in fn.walk():
                 px = cfg.pos_of(x)
-                if px is None or pd is None or px[0] != pd[0]:
+                if px is None or pd is None:
+                    continue
+                # on every path through the emission within the same iteration: before it (dominates) or after it (post-dominates)
+                same_iter = inner_loop is not None and inner_loop.is_ancestor_of(x)
+                on_path = px[0] == pd[0] or (same_iter and (cfg.block_dominates(px[0], pd[0]) or
+                                                            (cfg.block_dominates(pd[0], px[0]) and cfg.block_postdominates(px[0], pd[0]))))
+                if not on_path:
                     continue
                 if x.k == 'CXXMemberCallExpr' and x.callee and x.callee['name'] == 'erase' and ex.var_of(x.object_arg()) in sets:
                     erased = True
